@@ -648,6 +648,7 @@ package leveldb
 //@     invariant [C01,C06:result-list-is-the-callers-or-new] (samebase(dst, old(dst)) && cap(dst) == cap(old(dst))) || freshbase(dst)
 //@   ensures [C06:empty-level-has-no-overlaps] len(tf) == 0 ==> len(result) == 0
 //@   ensures [C01,C06:result-list-is-the-callers-or-new] isnil(result) || base(result) == base(old(dst)) || freshbase(result)
+//@   ensures [C01,C06:binary-search-mode-leaves-the-callers-list-alone] !overlapped ==> (unchanged(old(dst)) && (isnil(result) || freshbase(result)))
 //@   ensures [C06:overlap-search-result-is-an-index-range] (!overlapped && len(tf) > 0) ==> (0 <= gOvB && gOvB <= gOvE && gOvE <= len(tf) && len(result) == gOvE - gOvB && (forall j int :: 0 <= j && j < gOvE - gOvB ==> result[j] == tf[gOvB + j]))
 //@   ensures [C06:overlap-search-range-is-exact] (!overlapped && len(tf) > 0) ==> (forall i int :: 0 <= i && i < len(tf) ==> (ovl(tf[i], umin, umax) <==> (gOvB <= i && i < gOvE)))
 
@@ -880,6 +881,24 @@ package leveldb
 //@   props C07
 //@   safety off
 //@   ensures [C07:version-reference-given-back] calls("(*version).release") - old(calls("(*version).release")) == calls("(*session).version") - old(calls("(*session).version"))
+
+// C06 / C01: where a flushed write buffer goes. The level chosen and every level above it hold no table that
+// overlaps the new table's user-key range: the new table stays disjoint from its level, and nothing older ends up
+// above it. That the levels below the top are sorted and disjoint is the induction hypothesis.
+//@ func (*version).pickMemdbLevel
+//@   props C06 C01
+//@   abstract keys
+//@   safety off
+//@   splitpaths
+//@   at before call (tFiles).overlaps#2
+//@     assume [C01,C06:levels-below-the-top-are-sorted-and-disjoint] sortedDisjoint(v.levels[pLevel]) && numsOK(v.levels[pLevel])
+//@   at before call (tFiles).getOverlaps#1
+//@     assume [C01,C06:levels-below-the-top-are-sorted-and-disjoint] sortedDisjoint(v.levels[gpLevel])
+//@   loop 1
+//@     modifies overlaps[0:cap(overlaps)]
+//@     invariant [C01,C06:scratch-list-is-private] isnil(overlaps) || freshbase(overlaps)
+//@     invariant [C01,C06:no-table-down-to-this-level-overlaps-the-range] 0 <= level && (forall l int :: (0 <= l && l <= level && l < len(v.levels)) ==> (forall j int :: (0 <= j && j < len(v.levels[l])) ==> !ovl(v.levels[l][j], umin, umax)))
+//@   ensures [C01,C06:no-table-down-to-the-chosen-level-overlaps-the-range] (maxLevel > 0 && len(v.levels) > 0) ==> (level == 0 || (forall l int :: (0 <= l && l <= level && l < len(v.levels)) ==> (forall j int :: (0 <= j && j < len(v.levels[l])) ==> !ovl(v.levels[l][j], umin, umax))))
 
 // C01 / C03: a compaction reads ALL of its inputs: every table of a level-0 input and the whole list of a deeper
 // input are put behind an iterator, over the full key range, and all of them are merged.
